@@ -48,6 +48,11 @@ class Ctx:
         if b is None:
             b = common.build_scanner(self.flex, self.workdir, 'b' + key, l_text, sc.flex_args(), san=san, tsan=tsan,
                                      defines=defines, cxx=(sc.flavor == 'cxx'))
+            if b.ok and 'dangerous trailing context' in b.flex_stderr:
+                # the manual leaves the behaviour of such rule sets undefined
+                b.ok = False
+                b.stage = 'flex'
+                b.msg = 'discarded: flex warns "dangerous trailing context"'
             self._builds[key] = b
         return b
 
